@@ -44,3 +44,35 @@ pub fn stateless_reset_native(inciting_len: u16) -> u32 {
         }
     }
 }
+
+/// Native replay body for the E2 query `e2_endpoint_reset_token_event` (C08 / C09): when a
+/// connection reports a new (address, reset token) pair, the entry it replaces is removed from the
+/// reset-token routing table under the address it was STORED under, so that after the connection
+/// drains no (address, token) pair routes to its handle any more - also across an address change.
+pub fn reset_token_event_native(same_addr: bool) -> u32 {
+    let mut cfg = EndpointConfig::new(Arc::new(NullHmac));
+    cfg.rng_seed(Some([7; 32]));
+    let mut ep = Endpoint::new(Arc::new(cfg), None, true);
+    let a: SocketAddr = "10.0.0.1:4433".parse().unwrap();
+    let b: SocketAddr = if same_addr { a } else { "10.0.0.9:5555".parse().unwrap() };
+    let (t1, t2) = (ResetToken::from([1u8; 16]), ResetToken::from([2u8; 16]));
+    let id = ep.connections.insert(ConnectionMeta {
+        init_cid: ConnectionId::new(&[1; 8]),
+        cids_issued: 0,
+        loc_cids: Default::default(),
+        addresses: FourTuple { remote: a, local_ip: None },
+        side: Side::Server,
+        reset_token: None,
+    });
+    let ch = ConnectionHandle(id);
+    assert!(ep.handle_event(ch, EndpointEvent(EndpointEventInner::ResetToken(a, t1))).is_none());
+    assert!(ep.index.connection_reset_tokens.get(a, &[1u8; 16]) == Some(&ch));
+    assert!(ep.handle_event(ch, EndpointEvent(EndpointEventInner::ResetToken(b, t2))).is_none());
+    assert!(ep.index.connection_reset_tokens.get(b, &[2u8; 16]) == Some(&ch));
+    assert!(ep.index.connection_reset_tokens.get(a, &[1u8; 16]).is_none(), "replaced reset token still routes to the connection");
+    assert!(ep.handle_event(ch, EndpointEvent(EndpointEventInner::Drained)).is_none());
+    assert!(ep.index.connection_reset_tokens.get(a, &[1u8; 16]).is_none(), "a drained connection is still reachable through an old reset token");
+    assert!(ep.index.connection_reset_tokens.get(b, &[2u8; 16]).is_none());
+    assert!(ep.open_connections() == 0);
+    1
+}
